@@ -816,109 +816,111 @@ def rule_r10(ctx):
                  "failed later, e.g. the id map could not grow): p_close / p_stop / p_fini dereference a pointer field of the "
                  "pipe that p_init does not set only under a NULL test of it", floor=12)
     prog = ctx.prog
-    for g, fields in prog.tables("nni_sp_pipe_ops"):
-        ini = strip_addr(fields.get("p_init"))
-        if not ini or ini.get("k") != "fnref":
-            continue
-        finit = prog.fn(ini["n"], g["file"]) or prog.fn(ini["n"])
-        if finit is None or finit.cfg_failed:
-            continue
-        # record type of the transport pipe: type of the local the void* argument is converted to
-        rec = None
-        for s in finit.sites():
-            if s.node.get("k") == "decls":
-                for d in s.node["d"]:
-                    if d.get("rec") and d.get("init") is not None:
-                        rec = d["rec"]
-        if rec is None or rec not in prog.records:
-            continue
-        ptr_fields = {f["n"] for f in prog.records[rec].get("fields", []) if f.get("t", "").rstrip().endswith("*")}
-        set_in_init = set()
-        for s in finit.assigns():
-            l = s.node["lhs"]
-            if l.get("k") == "mem" and l.get("rec") == rec and not finit.reaches_exit(
-                    (finit.entry, 0), blocked=lambda b, i, e, s=s: (b, i) == (s.b, s.i)):
-                set_in_init.add(l["f"])
-        late = ptr_fields - set_in_init
-        for slot in ("p_close", "p_stop", "p_fini"):
-            t = strip_addr(fields.get(slot))
-            if not t or t.get("k") != "fnref":
+    for table, s_init, s_after in (("nni_sp_pipe_ops", "p_init", ("p_close", "p_stop", "p_fini")),
+                                    ("nni_proto_pipe_ops", "pipe_init", ("pipe_close", "pipe_stop", "pipe_fini"))):
+        for g, fields in prog.tables(table):
+            ini = strip_addr(fields.get(s_init))
+            if not ini or ini.get("k") != "fnref":
                 continue
-            f0 = prog.fn(t["n"], g["file"]) or prog.fn(t["n"])
-            if f0 is None or f0.cfg_failed:
+            finit = prog.fn(ini["n"], g["file"]) or prog.fn(ini["n"])
+            if finit is None or finit.cfg_failed:
                 continue
-            def holders_of(f):
-                out = {}
-                for v in f.locals():
-                    ds = G.var_defs(f, v)
-                    if ds and all(x is not None and x.get("k") == "mem" and x.get("rec") == rec and x["f"] in late for _, x in ds):
-                        out[v] = ds[0][1]["f"]
-                return out
+            # record type of the transport pipe: type of the local the void* argument is converted to
+            rec = None
+            for s in finit.sites():
+                if s.node.get("k") == "decls":
+                    for d in s.node["d"]:
+                        if d.get("rec") and d.get("init") is not None:
+                            rec = d["rec"]
+            if rec is None or rec not in prog.records:
+                continue
+            ptr_fields = {f["n"] for f in prog.records[rec].get("fields", []) if f.get("t", "").rstrip().endswith("*")}
+            set_in_init = set()
+            for s in finit.assigns():
+                l = s.node["lhs"]
+                if l.get("k") == "mem" and l.get("rec") == rec and not finit.reaches_exit(
+                        (finit.entry, 0), blocked=lambda b, i, e, s=s: (b, i) == (s.b, s.i)):
+                    set_in_init.add(l["f"])
+            late = ptr_fields - set_in_init
+            for slot in s_after:
+                t = strip_addr(fields.get(slot))
+                if not t or t.get("k") != "fnref":
+                    continue
+                f0 = prog.fn(t["n"], g["file"]) or prog.fn(t["n"])
+                if f0 is None or f0.cfg_failed:
+                    continue
+                def holders_of(f):
+                    out = {}
+                    for v in f.locals():
+                        ds = G.var_defs(f, v)
+                        if ds and all(x is not None and x.get("k") == "mem" and x.get("rec") == rec and x["f"] in late for _, x in ds):
+                            out[v] = ds[0][1]["f"]
+                    return out
 
-            def assured_at(f, pos):
-                """late fields known to be non-NULL at pos in f (a dominating NULL test of the field or of a local holding it)"""
-                hs = holders_of(f)
-                out = set()
-                for fld in late:
-                    def tests(x, fld=fld):
-                        if x.get("k") == "var" and hs.get(x["n"]) == fld:
-                            return True
-                        return x.get("k") == "mem" and x.get("rec") == rec and x["f"] == fld
-                    nn = G.cond_edges(f, tests, want_nonzero=True)
-                    if nn and G.dominated(f, pos, nn):
-                        out.add(fld)
-                return out
-            todo = [(f0, set())]
-            # same-object helpers one level down (fini calling stop, close calling a removal helper): what the caller has
-            # established about the object at the call site holds in the helper
-            for c in f0.calls():
-                h = prog.resolve(f0, c.node["fn"]) if c.node.get("fn") else None
-                if h is not None and h.file == f0.file and h.static and not h.cfg_failed and len(c.node["args"]) == 1:
-                    known = assured_at(f0, (c.b, c.i))
-                    prev = [t for t in todo if t[0] is h]
-                    if prev:
-                        todo.remove(prev[0])
-                        known &= prev[0][1]
-                    todo.append((h, known))
-            for f, known in todo:
-                # locals that hold p->F for a late field F
-                holders = {}
-                for pos, rhs in [(pp, rr) for v in f.locals() for pp, rr in G.var_defs(f, v)]:
-                    pass
-                for v in f.locals():
-                    ds = G.var_defs(f, v)
-                    if ds and all(x is not None and x.get("k") == "mem" and x.get("rec") == rec and x["f"] in late for _, x in ds):
-                        holders[v] = ds[0][1]["f"]
-                n_deref = 0
-                for s in f.sites():
-                    n = s.node
-                    if n.get("k") != "mem" or not n.get("arrow"):
-                        continue
-                    b = f.expand(n["b"])
-                    fld = None
-                    if b.get("k") == "mem" and b.get("rec") == rec and b["f"] in late:
-                        fld, what = b["f"], show(b)
-                    elif b.get("k") == "var" and b["n"] in holders:
-                        fld, what = holders[b["n"]], b["n"]
-                    if fld is None or fld in known:
-                        continue
-                    n_deref += 1
+                def assured_at(f, pos):
+                    """late fields known to be non-NULL at pos in f (a dominating NULL test of the field or of a local holding it)"""
+                    hs = holders_of(f)
+                    out = set()
+                    for fld in late:
+                        def tests(x, fld=fld):
+                            if x.get("k") == "var" and hs.get(x["n"]) == fld:
+                                return True
+                            return x.get("k") == "mem" and x.get("rec") == rec and x["f"] == fld
+                        nn = G.cond_edges(f, tests, want_nonzero=True)
+                        if nn and G.dominated(f, pos, nn):
+                            out.add(fld)
+                    return out
+                todo = [(f0, set())]
+                # same-object helpers one level down (fini calling stop, close calling a removal helper): what the caller has
+                # established about the object at the call site holds in the helper
+                for c in f0.calls():
+                    h = prog.resolve(f0, c.node["fn"]) if c.node.get("fn") else None
+                    if h is not None and h.file == f0.file and h.static and not h.cfg_failed and len(c.node["args"]) == 1:
+                        known = assured_at(f0, (c.b, c.i))
+                        prev = [t for t in todo if t[0] is h]
+                        if prev:
+                            todo.remove(prev[0])
+                            known &= prev[0][1]
+                        todo.append((h, known))
+                for f, known in todo:
+                    # locals that hold p->F for a late field F
+                    holders = {}
+                    for pos, rhs in [(pp, rr) for v in f.locals() for pp, rr in G.var_defs(f, v)]:
+                        pass
+                    for v in f.locals():
+                        ds = G.var_defs(f, v)
+                        if ds and all(x is not None and x.get("k") == "mem" and x.get("rec") == rec and x["f"] in late for _, x in ds):
+                            holders[v] = ds[0][1]["f"]
+                    n_deref = 0
+                    for s in f.sites():
+                        n = s.node
+                        if n.get("k") != "mem" or not n.get("arrow"):
+                            continue
+                        b = f.expand(n["b"])
+                        fld = None
+                        if b.get("k") == "mem" and b.get("rec") == rec and b["f"] in late:
+                            fld, what = b["f"], show(b)
+                        elif b.get("k") == "var" and b["n"] in holders:
+                            fld, what = holders[b["n"]], b["n"]
+                        if fld is None or fld in known:
+                            continue
+                        n_deref += 1
 
-                    def tests(x, fld=fld, b=b):
-                        if x.get("k") == "var" and b.get("k") == "var" and x["n"] == b["n"]:
-                            return True
-                        return x.get("k") == "mem" and x.get("rec") == rec and x["f"] == fld
-                    nonnull = G.cond_edges(f, tests, want_nonzero=True)
-                    if nonnull and G.dominated(f, (s.b, s.i), nonnull):
-                        r.ob(f, "%s->%s line %s under a NULL test of %s.%s" % (what, n["f"], s.line, rec, fld))
-                    else:
-                        ctx.fail(r, f, "%s.%s dereferenced without a NULL test" % (rec, fld), s.line,
-                                 "%s (slot %s of %s) dereferences %s->%s, but %s.%s is first set after p_init (not in %s): when pipe "
-                                 "creation fails after p_init -- a failed allocation in the protocol's pipe_init or in the id "
-                                 "map -- the framework still runs this slot and it dereferences NULL"
-                                 % (f.name, slot, g["name"], what, n["f"], rec, fld, finit.name))
-                if not n_deref:
-                    r.ob(f, "%s: no dereference through a field that p_init leaves unset" % slot)
+                        def tests(x, fld=fld, b=b):
+                            if x.get("k") == "var" and b.get("k") == "var" and x["n"] == b["n"]:
+                                return True
+                            return x.get("k") == "mem" and x.get("rec") == rec and x["f"] == fld
+                        nonnull = G.cond_edges(f, tests, want_nonzero=True)
+                        if nonnull and G.dominated(f, (s.b, s.i), nonnull):
+                            r.ob(f, "%s->%s line %s under a NULL test of %s.%s" % (what, n["f"], s.line, rec, fld))
+                        else:
+                            ctx.fail(r, f, "%s.%s dereferenced without a NULL test" % (rec, fld), s.line,
+                                     "%s (slot %s of %s) dereferences %s->%s, but %s.%s is first set after p_init (not in %s): when pipe "
+                                     "creation fails after p_init -- a failed allocation in the protocol's pipe_init or in the id "
+                                     "map -- the framework still runs this slot and it dereferences NULL"
+                                     % (f.name, slot, g["name"], what, n["f"], rec, fld, finit.name))
+                    if not n_deref:
+                        r.ob(f, "%s: no dereference through a field that p_init leaves unset" % slot)
 
 
 # ---------------------------------------------------------------------------
@@ -1954,6 +1956,82 @@ def rule_r23(ctx):
     r.notes.append("entry counters: " + ", ".join("%s beside %s" % kv for kv in sorted(counters.items())))
 
 
+# ---------------------------------------------------------------------------
+# R24: what the caller releases on failure, the failing callee has not released
+
+
+def rule_r24(ctx):
+    import re
+    from .. import guards as G
+    r = ctx.rule("C20.R24", "T4", "released once on failure: where a caller releases an argument on the branch on which the callee "
+                 "reported an error (rv = g(.., x, ..) != 0 -> free(x)), no failing path of the callee has disposed of it already "
+                 "-- in particular the callee does not store the argument into an object (o->F = x) and then, failing a later "
+                 "step, destroy that object with a function that releases o->F. Ownership of a borrowed argument is taken "
+                 "after the last step that can fail", floor=1)
+    r.own_opinion = True      # looks at caller and callee itself
+    prog = ctx.prog
+    REL = re.compile(r"(_free|_fini|_close|_destroy)$")
+
+    def releases_field(d, rec, fld, depth=0):
+        """does destroyer d release <param0>->fld of record rec?"""
+        for c in d.calls():
+            fn_ = c.node.get("fn") or ""
+            if (REL.search(fn_) or fn_ in ("nni_free", "nni_msg_free", "nni_strfree")) and c.node["args"]:
+                a0 = d.expand(c.node["args"][0])
+                if a0 is not None and any(m.get("k") == "mem" and m.get("rec") == rec and m["f"] == fld for m in walk(a0)):
+                    return True
+        return False
+    n = 0
+    for f in prog.functions:
+        if f.cfg_failed or f.file.endswith("_test.c"):
+            continue
+        for c in f.calls():
+            g = prog.resolve(f, c.node["fn"]) if c.node.get("fn") else None
+            if g is None or g is f or g.cfg_failed or g.file != f.file or g.ret not in ("int", "nng_err"):
+                continue
+            ve = f.value_edges(c)
+            if not ve:
+                continue
+            fail_edges = {b: nz for b, (nz, z) in ve.items()}
+            for j, a in enumerate(c.node["args"]):
+                a = f.expand(a) if a is not None else None
+                if a is None or a.get("k") != "var" or j >= len(g.params) or "*" not in (g.params[j].get("t") or ""):
+                    continue
+                # released by the caller on the failure branch?
+                rels = [k for k in f.calls() if (REL.search(k.node.get("fn") or "") or (k.node.get("fn") in ("nni_free", "nni_msg_free")))
+                        and k.node["args"] and f.expand(k.node["args"][0]).get("k") == "var" and f.expand(k.node["args"][0])["n"] == a["n"]
+                        and G.dominated(f, (k.b, k.i), fail_edges)]
+                if not rels:
+                    continue
+                n += 1
+                pn = g.params[j]["n"]
+                bad = None
+                for t in g.assigns():
+                    l = t.node["lhs"]
+                    rv_ = g.expand(t.node["rhs"])
+                    while rv_ is not None and rv_.get("k") == "cast":
+                        rv_ = rv_["e"]
+                    if l.get("k") != "mem" or rv_ is None or rv_.get("k") != "var" or rv_["n"] != pn:
+                        continue
+                    after = g.reach((t.b, t.i + 1))
+                    for k in g.calls():
+                        if (k.b, k.i) not in after or not k.node.get("fn"):
+                            continue
+                        d = prog.resolve(g, k.node["fn"])
+                        if d is not None and not d.cfg_failed and REL.search(d.name) and releases_field(d, l.get("rec"), l["f"]):
+                            bad = (t, k, d)
+                if bad:
+                    t, k, d = bad
+                    ctx.fail(r, g, "argument %s released by the callee and again by the caller" % pn, t.line,
+                             "%s stores its argument %s into %s (line %s) and can afterwards fail and call %s (line %s), which "
+                             "releases that field; %s then releases the same object again on its error branch (line %s)"
+                             % (g.name, pn, show(t.node["lhs"]), t.line, d.name, k.line, f.name, rels[0].line), file=g.file)
+                else:
+                    r.ob(g, "%s: the caller %s releases %s on failure, the failing paths of the callee do not" % (g.name, f.name, pn))
+    if n < 1:
+        raise AnalysisBroken("no caller releases an argument after a failed call any more (nni_http_init did)")
+
+
 def run(ctx):
     ctx.guard(rule_r1)
     ctx.guard(rule_r2)
@@ -1977,3 +2055,4 @@ def run(ctx):
     ctx.guard(rule_r21)
     ctx.guard(rule_r22)
     ctx.guard(rule_r23)
+    ctx.guard(rule_r24)
